@@ -59,7 +59,7 @@ var (
 	stApps    = []string{"app", "web"}
 	stEntries = []string{"main", "api"}
 	// names the request validation accepts and that contain separators or glob characters
-	stAppsP    = []string{"a", "ab", "a_b", "a_b_c", "b"}
+	stAppsP    = []string{"a", "ab", "a_b", "a_b_c", "b", "a__b", "_a", "a_"}
 	stEntriesP = []string{"b", "bc", "c", "b-c", "_b", "b_c"} // the last two must be refused by request validation
 	stNodesP   = []string{"n1", "n10", "n1x", "n"}
 	stAppsS    = []string{"a", "a_b", "a/b", "b"}
